@@ -47,9 +47,18 @@ func init() {
 					}
 				}
 			}
+			for failAt := 1; failAt <= 4; failAt++ {
+				for mode := 1; mode <= 2; mode++ {
+					reach := []string{"failed"}
+					if failAt > 2 {
+						reach = []string{"failed", "ok"}
+					}
+					cs = append(cs, driver.Case{Harness: "verifH_c12_ecdh_genkey", Pkg: "ecdh", Config: "purego", Params: P("failat", failAt, "mode", mode), MaxUnwind: 200, TimeoutS: 1200, MustReach: reach})
+				}
+			}
 			return cs
 		},
-		Functions:   []string{"sm2.randomPoint", "internal/bigmod.(*Nat).{SetBytes,IsZero,Equal,Bytes,...} (real limb code)", "io.ReadFull"},
+		Functions:   []string{"ecdh.(*sm2Curve).GenerateKey/NewPrivateKey, isLess", "internal/randutil.MaybeReadByte (reads one byte or none)", "sm2.randomPoint", "internal/bigmod.(*Nat).{SetBytes,IsZero,Equal,Bytes,...} (real limb code)", "io.ReadFull"},
 		Assumptions: []string{"scripted random source: fresh symbolic 32-byte blocks; at a chosen call index it returns an error or half a block followed by EOF", "group/field arithmetic abstract (uninterpreted functions over coordinates; harness/internal/sm2ec)"},
 		Bounds:      map[string]string{"quick": "up to 3 blocks before the source fails", "thorough": "same"},
 		Outside:     []string{"randFieldElement (math/big; legacy curves and sm2.KeyExchange)", "uniformity itself (follows from exact-block + rejection)"},
